@@ -158,22 +158,36 @@ theorem hugeAddr_eq_addr1G (e : BitVec 64) (h : e &&& 0x3fffe000#64 = 0#64) :
 /-- The `next_table` test of mapper kind `k` (`translate`, `translate_page`, `update_flags`, …). -/
 def ntK (k : Kind) : Word → Except WalkErr Word := if k.recursive then nextTableU else nextTable
 
-/-- On an entry that is zero or present, both variants decide by the architectural bits P and PS
-exactly as the hardware does. (Without the hypothesis they differ from the hardware: the
-non-recursive one reports a non-present entry with PS set as a huge page, the recursive one
-follows a non-zero non-present entry.) -/
-theorem ntK_eq (k : Kind) (e : Word) (h : e ≠ 0#64 → bitP e = true) :
+/-- What `next_table` of kind `k` needs from an entry to agree with the hardware's reading of the
+P and PS bits: the recursive variant (`is_unused` first, no `PRESENT` test) needs "non-zero ⇒
+present"; the other one (`HUGE_PAGE` first, then `PRESENT`) only needs "PS ⇒ present". -/
+def NtOK (k : Kind) (e : Word) : Prop :=
+  if k.recursive then (e ≠ 0#64 → bitP e = true) else (bitPS e = true → bitP e = true)
+
+theorem NtOK_of_entOK (k : Kind) {e : Word} (h : e ≠ 0#64 → bitP e = true) : NtOK k e := by
+  unfold NtOK
+  split
+  · exact h
+  · exact fun hPS => h (ne_zero_of_bitPS hPS)
+
+/-- On an entry satisfying `NtOK` (in particular one that is zero or present), both variants decide
+by the architectural bits P and PS exactly as the hardware does. (Without the hypothesis they
+differ from the hardware: the non-recursive one reports a non-present entry with PS set as a huge
+page, the recursive one follows a non-zero non-present entry.) -/
+theorem ntK_eq (k : Kind) (e : Word) (h : NtOK k e) :
     ntK k e = if bitP e then (if bitPS e then .error .hugePage else .ok (tableAddr e))
               else .error .notMapped := by
   obtain ⟨r⟩ := k
   cases r
   · -- `nextTable`: HUGE_PAGE first, then PRESENT
+    have h : bitPS e = true → bitP e = true := h
     show nextTable e = _
     unfold nextTable
     rw [huge_eq_bitPS, present_eq_bitP, addr_eq_tableAddr]
     cases hPS : bitPS e <;> cases hP : bitP e <;> simp
-    exact absurd (h (ne_zero_of_bitPS hPS)) (by simp [hP])
+    exact absurd (h hPS) (by simp [hP])
   · -- `nextTableU`: is_unused first, then HUGE_PAGE
+    have h : e ≠ 0#64 → bitP e = true := h
     show nextTableU e = _
     unfold nextTableU
     rw [huge_eq_bitPS, addr_eq_tableAddr]
@@ -353,9 +367,9 @@ def depthE (e4 e3 e2 : Word) : Nat :=
   else 1
 
 theorem translateE_eq (k : Kind) (e4 e3 e2 e1 : Word) (va : Nat)
-    (h4 : e4 ≠ 0#64 → bitP e4 = true) (h4ps : bitPS e4 = false)
-    (h3 : bitP e4 = true → e3 ≠ 0#64 → bitP e3 = true)
-    (h2 : bitP e4 = true → bitP e3 = true → bitPS e3 = false → e2 ≠ 0#64 → bitP e2 = true)
+    (h4 : NtOK k e4) (h4ps : bitPS e4 = false)
+    (h3 : bitP e4 = true → NtOK k e3)
+    (h2 : bitP e4 = true → bitP e3 = true → bitPS e3 = false → NtOK k e2)
     (h1 : bitP e4 = true → bitP e3 = true → bitPS e3 = false → bitP e2 = true → bitPS e2 = false →
       e1 ≠ 0#64 → bitP e1 = true) :
     translateE k e4 e3 e2 e1 va = (renderE e4 e3 e2 e1 va, depthE e4 e3 e2) := by
@@ -534,9 +548,9 @@ theorem eq_zero_of_not_bitP {e : Word} (h : e ≠ 0#64 → bitP e = true) (hP : 
   · rw [h h0] at hP; cases hP
 
 theorem tpE_4K (k : Kind) (e4 e3 e2 e1 : Word) (va : Nat)
-    (h4 : e4 ≠ 0#64 → bitP e4 = true) (h4ps : bitPS e4 = false)
-    (h3 : bitP e4 = true → e3 ≠ 0#64 → bitP e3 = true)
-    (h2 : bitP e4 = true → bitP e3 = true → bitPS e3 = false → e2 ≠ 0#64 → bitP e2 = true)
+    (h4 : NtOK k e4) (h4ps : bitPS e4 = false)
+    (h3 : bitP e4 = true → NtOK k e3)
+    (h2 : bitP e4 = true → bitP e3 = true → bitPS e3 = false → NtOK k e2)
     (h1 : bitP e4 = true → bitP e3 = true → bitPS e3 = false → bitP e2 = true → bitPS e2 = false →
       e1 ≠ 0#64 → bitP e1 = true) :
     tpE k false 4096 [e4, e3, e2] e1 = (expect4KE e4 e3 e2 e1 va, depthE e4 e3 e2) := by
@@ -568,8 +582,8 @@ theorem tpE_4K (k : Kind) (e4 e3 e2 e1 : Word) (va : Nat)
       · simp [expect4KE, walkE, depthE, hP4, hP3, h4ps, hPS3, OpErr.ofWalk]
 
 theorem tpE_2M (k : Kind) (e4 e3 e2 e1 : Word) (va : Nat)
-    (h4 : e4 ≠ 0#64 → bitP e4 = true) (h4ps : bitPS e4 = false)
-    (h3 : bitP e4 = true → e3 ≠ 0#64 → bitP e3 = true)
+    (h4 : NtOK k e4) (h4ps : bitPS e4 = false)
+    (h3 : bitP e4 = true → NtOK k e3)
     (h2 : bitP e4 = true → bitP e3 = true → bitPS e3 = false → e2 ≠ 0#64 → bitP e2 = true) :
     tpE k true (2^21) [e4, e3] e2 = (expect2ME e4 e3 e2 e1 va, min (depthE e4 e3 e2) 3) := by
   unfold tpE
@@ -604,7 +618,7 @@ theorem tpE_2M (k : Kind) (e4 e3 e2 e1 : Word) (va : Nat)
       · simp [expect2ME, walkE, depthE, hP4, hP3, h4ps, hPS3, OpErr.ofWalk]
 
 theorem tpE_1G (k : Kind) (e4 e3 e2 e1 : Word) (va : Nat)
-    (h4 : e4 ≠ 0#64 → bitP e4 = true) (h4ps : bitPS e4 = false)
+    (h4 : NtOK k e4) (h4ps : bitPS e4 = false)
     (h3 : bitP e4 = true → e3 ≠ 0#64 → bitP e3 = true) :
     tpE k true (2^30) [e4] e3 = (expect1GE e4 e3 e2 e1 va, min (depthE e4 e3 e2) 2) := by
   unfold tpE
@@ -631,5 +645,53 @@ theorem tpE_1G (k : Kind) (e4 e3 e2 e1 : Word) (va : Nat)
         · simp only [hal, decide_false, Nat.reducePow] at ha
           simp [expect1GE, walkE, depthE, hP4, hP3, h4ps, hPS3,
             hu, slotE, huge_eq_bitPS, ha, hal, addr_eq_tableAddr]
+
+/-! ### What the walk reports about a leaf -/
+
+/-- Everything `walkE` reports about a leaf follows from the leaf entry's bits. -/
+theorem walkE_facts (e4 e3 e2 e1 : Word) (va : Nat) (x : Xlat) (h : walkE e4 e3 e2 e1 va = some x) :
+    (x.size = 4096 ∨ x.size = 2^21 ∨ x.size = 2^30) ∧ x.off = va % x.size ∧
+    x.base % x.size = 0 ∧ x.base + x.size ≤ 2^52 ∧
+    Pte.flags (leafE e3 e2 e1) &&&
+      (if x.size = 4096 then 0xfff0000000000fff#64 else 0xfff0000000001fff#64) = x.flags ∧
+    (x.size = 4096 →
+      (Pte.flags (leafE e3 e2 e1)).getLsbD 12 = (BitVec.ofNat 64 x.base).getLsbD 12) := by
+  unfold walkE at h
+  split at h
+  · cases h
+  split at h
+  · cases h
+  split at h
+  · next hPS3 =>
+    cases h
+    refine ⟨Or.inr (Or.inr rfl), rfl, addr1G_aligned e3, addr1G_bound e3, ?_, ?_⟩
+    · simp only [leafE, hPS3, if_true]
+      exact flags_and_domHuge e3
+    · intro h; simp at h
+  split at h
+  · cases h
+  split at h
+  · next hPS3 _ hPS2 =>
+    cases h
+    refine ⟨Or.inr (Or.inl rfl), rfl, addr2M_aligned e2, addr2M_bound e2, ?_, ?_⟩
+    · simp only [leafE, hPS3, hPS2, if_true]
+      exact flags_and_domHuge e2
+    · intro h; simp at h
+  split at h
+  · cases h
+  · next hPS3 _ hPS2 _ =>
+    cases h
+    refine ⟨Or.inl rfl, rfl, tableAddr_aligned e1, tableAddr_bound e1, ?_, ?_⟩
+    · simp only [leafE, hPS3, hPS2, if_true]
+      exact flags_and_dom4K e1
+    · intro _
+      simp only [leafE, hPS3, hPS2, ofNat_toNat64]
+      exact flags_bit12 e1
+
+theorem translateE_count (k : Kind) (e4 e3 e2 e1 : Word) (va : Nat) :
+    1 ≤ (translateE k e4 e3 e2 e1 va).2 ∧ (translateE k e4 e3 e2 e1 va).2 ≤ 4 := by
+  unfold translateE
+  repeat' split
+  all_goals exact ⟨by simp, by simp⟩
 
 end X86
